@@ -13,6 +13,8 @@ import (
 	"fmt"
 	"os"
 	"sort"
+
+	"golang.org/x/tools/go/ssa"
 )
 
 //go:embed anchors.json
@@ -25,6 +27,70 @@ var anchorsJSON []byte
 var anchorParamsJSON []byte
 
 var refParams map[string][]string
+
+// anchor_callers.json: name -> production functions that call it statically on the
+// reference tree (closures attributed to their enclosing function).  Used to recognise a
+// function that was renamed *and* re-parameterised: same callers, same results.
+//
+//go:embed anchor_callers.json
+var anchorCallersJSON []byte
+
+func loadAnchorCallers() map[string][]string {
+	m := map[string][]string{}
+	if len(anchorCallersJSON) > 0 {
+		_ = json.Unmarshal(anchorCallersJSON, &m)
+	}
+	return m
+}
+
+// staticCallers computes the same table for the loaded program.
+func staticCallers(p *Prog) map[string][]string {
+	set := map[string]map[string]bool{}
+	for fn := range p.allFuncs {
+		if !p.InP(fn) || fn.Blocks == nil {
+			continue
+		}
+		root := fn
+		for root.Parent() != nil {
+			root = root.Parent()
+		}
+		from := shortName(root.String())
+		for _, b := range fn.Blocks {
+			for _, in := range b.Instrs {
+				var callee *ssa.Function
+				switch x := in.(type) {
+				case ssa.CallInstruction:
+					callee = x.Common().StaticCallee()
+				case *ssa.MakeClosure:
+					continue
+				default:
+					// a function used as a value (callback, method value)
+					for _, op := range in.Operands(nil) {
+						if f, ok := (*op).(*ssa.Function); ok && f.Parent() == nil {
+							callee = f
+						}
+					}
+				}
+				if callee == nil || callee.Parent() != nil || !p.InP(callee) {
+					continue
+				}
+				to := shortName(callee.String())
+				if set[to] == nil {
+					set[to] = map[string]bool{}
+				}
+				set[to][from] = true
+			}
+		}
+	}
+	out := map[string][]string{}
+	for to, froms := range set {
+		for f := range froms {
+			out[to] = append(out[to], f)
+		}
+		sort.Strings(out[to])
+	}
+	return out
+}
 
 func loadAnchorParams() map[string][]string {
 	m := map[string][]string{}
@@ -48,6 +114,7 @@ func init() {
 		fs := flag.NewFlagSet("anchors", flag.ExitOnError)
 		repo := fs.String("repo", "/repo", "")
 		params := fs.Bool("params", false, "print the parameter-name table instead")
+		callers := fs.Bool("callers", false, "print the static-caller table instead")
 		fs.Parse(args)
 		saved := anchorsJSON
 		anchorsJSON = nil
@@ -56,6 +123,11 @@ func init() {
 		if err != nil {
 			fmt.Fprintln(os.Stderr, err)
 			return 2
+		}
+		if *callers {
+			b, _ := json.MarshalIndent(staticCallers(p), "", " ")
+			fmt.Println(string(b))
+			return 0
 		}
 		if *params {
 			pm := map[string][]string{}
